@@ -26,8 +26,10 @@
        with Apalache, the step still passes. That mutant is caught on the real code by
        stage (B)/(C) of the check, not by the design model.)
    Divergence control: StateCommitApa_xcheck*.cfg run TLC on this module with the constants
-   of StateCommit.cfg / StateCommit_thorough.cfg; checks/c10_statecommit.py requires the
-   number of distinct states and the depth to be equal to those of StateCommit (under VIEW).
+   of StateCommit.cfg / StateCommit_thorough.cfg (and additionally evaluate IndInv on every
+   reachable state); checks/c10_statecommit.py requires the numbers of distinct states and
+   of transitions to be equal to those of StateCommit under VIEW (51,037 / 111,905 quick,
+   894,889 / 2,066,719 thorough; the depth is equal too with -workers 1).
 
    The Apalache entry points (constants, IndInit with Gen) are in MC_StateCommitApa.tla;
    this module stays plain TLA+ so that TLC can check it too.                            *)
